@@ -13,6 +13,7 @@ def make(prop, rule_text, hostile_names):
         specs += shards("parsed", 3000 if q else 100000, 250 if q else 4000, seed)
         specs += shards("reused_compiler", 8000 if q else 400000, 2000 if q else 40000, seed)
         specs += [{"family": "thresholds", "seed": seed, "n": 1, "part": k, "parts": 8, "tier": tier} for k in range(8)]
+        specs += [{"family": "threads", "seed": seed + k, "n": 1, "rounds": 25 if q else 300} for k in range(1 if q else 4)]
         return specs
 
     def one_direct(seed, i, M, compiler=None, spec=None):
@@ -58,6 +59,9 @@ def make(prop, rule_text, hostile_names):
                 M.count("documents_parsed")
                 pc.compare(o.ast, "features/x.feature", int(o.idgen.get_next_id()), prop, M, {"kind": "threshold", "dim": dim, "n": n})
             return
+        if spec["family"] == "threads":
+            pc.threaded_compile(prop, M, spec["seed"], rounds=spec["rounds"])
+            return
         if spec["family"] == "reused_compiler":
             from gherkin.pickles.compiler import Compiler
             comp = Compiler()          # one Compiler (and its id generator) for every document of the shard
@@ -72,6 +76,8 @@ def make(prop, rule_text, hostile_names):
             run_shard({"family": "thresholds", "tier": "thorough", "part": 0, "parts": 1, "seed": 0}, M)
         elif case["kind"] == "shard":
             run_shard(case["spec"], M)
+        elif case["kind"] == "threads":
+            pc.threaded_compile(prop, M, case["seed"], rounds=300)
         elif case["kind"] == "childless":
             pc.childless_without_uri(prop, M)
         elif case["kind"] == "ast":
